@@ -93,22 +93,22 @@ Proof.
 Qed.
 
 (* what equality of normalised input lists means, slot by slot *)
-Lemma key_from_eq k ins ins' :
-  key_from k ins = key_from k ins' <->
+Lemma norm_from_eq k ins ins' :
+  norm_from k ins = norm_from k ins' <->
   length ins = length ins' /\
   forall j a b, nth_error ins j = Some a -> nth_error ins' j = Some b ->
-    in_src a = in_src b /\ in_rank a = in_rank b /\
+    in_src a = in_src b /\ in_rank a = in_rank b /\ in_passive a = in_passive b /\
     (match in_tpath a with [] => [k + j] | p => p end) = (match in_tpath b with [] => [k + j] | p => p end).
 Proof.
   revert k ins'. induction ins as [|a r IH]; intros k [|b s]; simpl; try (split; [congruence | intros [H _]; discriminate]).
   - split; auto. intros _. split; auto. intros [|j] x y; discriminate.
   - split.
-    + intros E. injection E as E1 E2 E3 E4. apply IH in E4. destruct E4 as [Hl Hs]. split; [congruence|].
+    + intros E. injection E as E1 E2 E3 E4 E5. apply IH in E5. destruct E5 as [Hl Hs]. split; [congruence|].
       intros [|j] x y Hx Hy; simpl in *.
       * injection Hx as <-. injection Hy as <-. rewrite Nat.add_0_r. auto.
       * specialize (Hs j x y Hx Hy). replace (k + S j) with (S k + j) by lia. exact Hs.
     + intros [Hl Hs]. f_equal.
-      * destruct (Hs 0 a b eq_refl eq_refl) as (E1 & E2 & E3). rewrite Nat.add_0_r in E3. congruence.
+      * destruct (Hs 0 a b eq_refl eq_refl) as (E1 & E2 & E3 & E4). rewrite Nat.add_0_r in E4. congruence.
       * apply IH. split; [lia|]. intros j x y Hx Hy. specialize (Hs (S j) x y Hx Hy).
         replace (k + S j) with (S k + j) in Hs by lia. exact Hs.
 Qed.
@@ -185,12 +185,6 @@ Proof.
   - intros H. destruct (IH H) as (k'' & Hin & Hk). exists k''. auto.
 Qed.
 
-Lemma key_from_clear k ins : key_from k (map clear_passive ins) = key_from k ins.
-Proof. revert k; induction ins as [|i r IH]; intros k; simpl; auto. rewrite IH. reflexivity. Qed.
-
-Lemma key_inputs_eff d rins : key_inputs (eff_inputs d rins) = key_inputs rins.
-Proof. unfold eff_inputs, key_inputs. destruct (nd_uniq d); auto. apply key_from_clear. Qed.
-
 (* ------------------------------------------------------------------ the wiring invariant *)
 (* statement l was given instance i, and i is configured exactly as l asks *)
 Definition inst_matches (prog : list stmt) (w : wst) (l i : nat) : Prop :=
@@ -199,7 +193,7 @@ Definition inst_matches (prog : list stmt) (w : wst) (l i : nat) : Prop :=
     resolve_inputs (w_env w) (w_phs w) ins = Some rins /\
     nd_def (i_def it) = nd_def d /\ nd_sch (i_def it) = nd_sch d /\ nd_scal (i_def it) = nd_scal d /\
     interns (i_def it) = interns d /\
-    key_inputs (i_ins it) = key_inputs rins /\
+    key_inputs (i_ins it) = key_inputs (eff_inputs d rins) /\
     (interns d = false -> i_label it = l).
 
 Definition w_le (w w' : wst) : Prop :=
@@ -243,10 +237,9 @@ Proof.
   { destruct (alookup l (w_env w)) as [i|] eqn:E; auto. exfalso. apply Hfresh. eapply wi_env_done; eauto. }
   destruct s as [d ins| |h l' p|a b]; cbn [wire_stmt] in Hw.
   - (* node *)
-    unfold wire_node in Hw.
+    unfold wire_node, wire_node_gen in Hw.
     destruct (resolve_inputs (w_env w) (w_phs w) ins) as [rins0|] eqn:R; [|discriminate].
     cbv zeta in Hw. set (rins := eff_inputs d rins0) in *.
-    assert (Hkeff : key_inputs rins = key_inputs rins0) by apply key_inputs_eff.
     destruct (all_passive rins); [discriminate|].
     destruct (if sh && interns d then tab_find (make_key d rins) (w_tab w) else None) as [i|] eqn:T.
     + (* shared with an existing instance *)
@@ -264,7 +257,7 @@ Proof.
       constructor; cbn [w_insts w_tab w_env w_phs w_binds w_deps].
       * intros l0 i0. rewrite alookup_cons. destruct (l =? l0) eqn:E.
         -- apply Nat.eqb_eq in E. subst l0. intros H. injection H as <-.
-           exists d, ins, rins0, it. cbn [w_insts w_env w_phs]. repeat split; auto; try exact Hkeff.
+           exists d, ins, rins0, it. cbn [w_insts w_env w_phs]. repeat split; auto.
            all: try congruence.
            eapply resolve_inputs_mono; [apply env_le_cons; exact Hlnone | apply phs_le_refl | exact R].
         -- intros H. eapply inst_matches_mono; [exact Hle | eapply wi_env; eauto].
@@ -292,7 +285,7 @@ Proof.
       constructor; cbn [w_insts w_tab w_env w_phs w_binds w_deps].
       * intros l0 i0. rewrite alookup_cons. destruct (l =? l0) eqn:E.
         -- apply Nat.eqb_eq in E. subst l0. intros H. injection H as <-.
-           exists d, ins, rins0, it. cbn [w_insts w_env w_phs]. repeat split; auto; try exact Hkeff.
+           exists d, ins, rins0, it. cbn [w_insts w_env w_phs]. repeat split; auto.
            ++ apply nth_error_snoc.
            ++ eapply resolve_inputs_mono; [apply env_le_cons; exact Hlnone | apply phs_le_refl | exact R].
         -- intros H. eapply inst_matches_mono; [exact Hle | eapply wi_env; eauto].
@@ -417,7 +410,7 @@ Lemma shared_same_config prog done w l1 l2 i :
     nth_error prog l1 = Some (StNode d1 ins1) /\ nth_error prog l2 = Some (StNode d2 ins2) /\
     resolve_inputs (w_env w) (w_phs w) ins1 = Some r1 /\ resolve_inputs (w_env w) (w_phs w) ins2 = Some r2 /\
     nd_def d1 = nd_def d2 /\ nd_sch d1 = nd_sch d2 /\ nd_scal d1 = nd_scal d2 /\
-    key_inputs r1 = key_inputs r2 /\
+    key_inputs (eff_inputs d1 r1) = key_inputs (eff_inputs d2 r2) /\
     (l1 <> l2 -> interns d1 = true /\ interns d2 = true).
 Proof.
   intros I H1 H2.
@@ -499,14 +492,26 @@ Lemma unf_inputs_resolve (G P : nat -> tree) gb pb e p :
              | Some (i, q) => exists l, pb h = Some (l, q) /\ alookup l e = Some i
              | None => pb h = None
              end) ->
-  forall pv ins rins, resolve_inputs e p ins = Some rins -> unf_inputs pv G gb rins = unf_inputs pv P pb ins.
+  forall ins rins, resolve_inputs e p ins = Some rins -> unf_inputs G gb rins = unf_inputs P pb ins.
 Proof.
-  intros Hn Hb pv ins rins H. unfold unf_inputs, norm_inputs, key_inputs.
-  destruct pv; generalize 0 as k; revert rins H; induction ins as [|i r IH]; simpl; intros rins H k;
-    try (injection H as <-; reflexivity);
-    (destruct (resolve e p (in_src i)) as [s|] eqn:Es; [|discriminate]);
-    (destruct (resolve_inputs e p r) as [r'|] eqn:Er; [|discriminate]);
-    injection H as <-; simpl; rewrite (unf_src_resolve G P gb pb e p Hn Hb _ _ Es), (IH r' eq_refl); reflexivity.
+  intros Hn Hb ins rins H. unfold unf_inputs, norm_inputs. generalize 0 as k.
+  revert rins H. induction ins as [|i r IH]; simpl; intros rins H k.
+  - injection H as <-. reflexivity.
+  - destruct (resolve e p (in_src i)) as [s|] eqn:Es; [|discriminate].
+    destruct (resolve_inputs e p r) as [r'|] eqn:Er; [|discriminate].
+    injection H as <-. simpl. rewrite (unf_src_resolve G P gb pb e p Hn Hb _ _ Es), (IH r' eq_refl). reflexivity.
+Qed.
+
+(* dropping the markers (add_unique_node) commutes with turning labels into ports *)
+Lemma resolve_inputs_eff e p d ins rins :
+  resolve_inputs e p ins = Some rins -> resolve_inputs e p (eff_inputs d ins) = Some (eff_inputs d rins).
+Proof.
+  unfold eff_inputs. destruct (nd_uniq d); auto.
+  revert rins. induction ins as [|i r IH]; simpl; intros rins H.
+  - injection H as <-. reflexivity.
+  - destruct (resolve e p (in_src i)) as [s|] eqn:Es; [|discriminate].
+    destruct (resolve_inputs e p r) as [r'|] eqn:Er; [|discriminate].
+    injection H as <-. rewrite (IH r' eq_refl). reflexivity.
 Qed.
 
 (* every bind statement of the program has been executed *)
@@ -515,7 +520,7 @@ Definition binds_done (prog : list stmt) (done : list nat) : Prop :=
 
 Lemma graph_unfolds_to_program prog done w :
   WInv prog done w -> single_bind prog -> binds_done prog done ->
-  forall fuel l i, alookup l (w_env w) = Some i -> gunf false w fuel i = punf false prog fuel l.
+  forall fuel l i, alookup l (w_env w) = Some i -> gunf w fuel i = punf prog fuel l.
 Proof.
   intros I Hsb Hbd.
   assert (Hb : forall h, match alookup h (w_binds w) with
@@ -533,10 +538,11 @@ Proof.
   cbn [gunf punf]. rewrite A, B. unfold site_of. rewrite D1, D2, D3, D4.
   f_equal.
   - destruct (interns d) eqn:X; auto.
-  - unfold unf_inputs at 1. cbv iota. rewrite N.
-    change (unf_inputs false (gunf false w f) (fun h => alookup h (w_binds w)) rins =
-            unf_inputs false (punf false prog f) (bind_of prog) ins).
-    apply (unf_inputs_resolve (gunf false w f) (punf false prog f) (fun h => alookup h (w_binds w)) (bind_of prog) (w_env w) (w_phs w)); auto.
+  - unfold unf_inputs at 1. unfold key_inputs in N. rewrite N.
+    change (unf_inputs (gunf w f) (fun h => alookup h (w_binds w)) (eff_inputs d rins) =
+            unf_inputs (punf prog f) (bind_of prog) (eff_inputs d ins)).
+    apply (unf_inputs_resolve (gunf w f) (punf prog f) (fun h => alookup h (w_binds w)) (bind_of prog) (w_env w) (w_phs w)); auto.
+    apply resolve_inputs_eff. exact C.
 Qed.
 
 (* packaged for a complete run: the order executes every statement exactly once *)
@@ -546,7 +552,7 @@ Definition complete_order (prog : list stmt) (order : list nat) : Prop :=
 Lemma run_unfolds sh prog order w :
   complete_order prog order -> single_bind prog -> wire_prog sh prog order = Ok w ->
   forall l d ins, nth_error prog l = Some (StNode d ins) ->
-  exists i, alookup l (w_env w) = Some i /\ forall fuel, gunf false w fuel i = punf false prog fuel l.
+  exists i, alookup l (w_env w) = Some i /\ forall fuel, gunf w fuel i = punf prog fuel l.
 Proof.
   intros [Hnd Hall] Hsb Hw l d ins Hn.
   pose proof (wire_prog_inv sh prog order w Hnd Hw) as I.
@@ -565,7 +571,7 @@ Lemma intern_preserves_dataflow prog order w1 w0' :
   wire_prog true prog order = Ok w1 -> wire_prog false prog order = Ok w0' ->
   forall l d ins, nth_error prog l = Some (StNode d ins) ->
   exists i1 i0, alookup l (w_env w1) = Some i1 /\ alookup l (w_env w0') = Some i0 /\
-                forall fuel, gunf false w1 fuel i1 = gunf false w0' fuel i0.
+                forall fuel, gunf w1 fuel i1 = gunf w0' fuel i0.
 Proof.
   intros Hc Hsb H1 H0 l d ins Hn.
   destruct (run_unfolds true prog order w1 Hc Hsb H1 l d ins Hn) as (i1 & A1 & B1).
@@ -579,7 +585,7 @@ Lemma order_independent_unfold prog o1 o2 w1 w2 :
   wire_prog true prog o1 = Ok w1 -> wire_prog true prog o2 = Ok w2 ->
   forall l d ins, nth_error prog l = Some (StNode d ins) ->
   exists i1 i2, alookup l (w_env w1) = Some i1 /\ alookup l (w_env w2) = Some i2 /\
-                forall fuel, gunf false w1 fuel i1 = gunf false w2 fuel i2.
+                forall fuel, gunf w1 fuel i1 = gunf w2 fuel i2.
 Proof.
   intros Hc1 Hc2 Hsb H1 H2 l d ins Hn.
   destruct (run_unfolds true prog o1 w1 Hc1 Hsb H1 l d ins Hn) as (i1 & A1 & B1).
@@ -595,7 +601,7 @@ Lemma run_shared_same_config sh prog order w l1 l2 i :
     nth_error prog l1 = Some (StNode d1 ins1) /\ nth_error prog l2 = Some (StNode d2 ins2) /\
     resolve_inputs (w_env w) (w_phs w) ins1 = Some r1 /\ resolve_inputs (w_env w) (w_phs w) ins2 = Some r2 /\
     nd_def d1 = nd_def d2 /\ nd_sch d1 = nd_sch d2 /\ nd_scal d1 = nd_scal d2 /\
-    key_inputs r1 = key_inputs r2 /\
+    key_inputs (eff_inputs d1 r1) = key_inputs (eff_inputs d2 r2) /\
     (l1 <> l2 -> interns d1 = true /\ interns d2 = true).
 Proof.
   intros Hnd Hw. eapply shared_same_config. eapply wire_prog_inv; eauto.
@@ -632,37 +638,38 @@ Proof.
   - split; auto.
 Qed.
 
-(* ------------------------------------------------------------------ REFUTED: the passive marker *)
-(* Witnesses for the two statements that fail because the key does not contain the Passive tag. *)
+(* ------------------------------------------------------------------ the OLD rule (marker not in the key) *)
+(* Kept as a named variant of the model ([wire_prog_old]): what the code did before
+   hooks/fix_passive_marker_in_key.patch.  Under it the two statements below fail. *)
 Definition w_src (s : Z) : ndef := {| nd_def := 0; nd_sch := [1%Z]; nd_scal := Some [s]; nd_uniq := false; nd_push := false |}.
 Definition w_add : ndef := {| nd_def := 3; nd_sch := [1%Z]; nd_scal := None; nd_uniq := false; nd_push := false |}.
 Definition w_in (l : nat) (pa : bool) : input := {| in_src := SPeer l []; in_tpath := []; in_rank := true; in_passive := pa |}.
 Definition w_prog : list stmt :=
   [StNode (w_src 7) []; StNode (w_src 8) []; StNode w_add [w_in 0 true; w_in 1 false]; StNode w_add [w_in 0 false; w_in 1 false]].
 
-Lemma passive_marker_distinct_refuted :
+Lemma passive_marker_distinct_old_rule_refuted :
   exists prog order w l1 l2 i d1 ins1 d2 ins2,
-    NoDup order /\ wire_prog true prog order = Ok w /\ l1 <> l2 /\
+    NoDup order /\ wire_prog_old true prog order = Ok w /\ l1 <> l2 /\
     alookup l1 (w_env w) = Some i /\ alookup l2 (w_env w) = Some i /\
     nth_error prog l1 = Some (StNode d1 ins1) /\ nth_error prog l2 = Some (StNode d2 ins2) /\
     map in_passive ins1 <> map in_passive ins2.
 Proof.
-  destruct (wire_prog true w_prog [0; 1; 2; 3]) as [w|c] eqn:E; [|vm_compute in E; discriminate].
+  destruct (wire_prog_old true w_prog [0; 1; 2; 3]) as [w|c] eqn:E; [|vm_compute in E; discriminate].
   exists w_prog, [0; 1; 2; 3], w, 2, 3, 2, w_add, [w_in 0 true; w_in 1 false], w_add, [w_in 0 false; w_in 1 false].
   vm_compute in E. injection E as <-.
   split; [apply nodupb_NoDup; reflexivity|].
   repeat split; try reflexivity; try discriminate.
 Qed.
 
-Lemma order_independent_with_passive_refuted :
+Lemma order_independent_old_rule_refuted :
   exists prog o1 o2 w1 w2 l i1 i2 fuel,
     complete_order prog o1 /\ complete_order prog o2 /\ single_bind prog /\
-    wire_prog true prog o1 = Ok w1 /\ wire_prog true prog o2 = Ok w2 /\
+    wire_prog_old true prog o1 = Ok w1 /\ wire_prog_old true prog o2 = Ok w2 /\
     alookup l (w_env w1) = Some i1 /\ alookup l (w_env w2) = Some i2 /\
-    gunf true w1 fuel i1 <> gunf true w2 fuel i2.
+    gunf w1 fuel i1 <> gunf w2 fuel i2.
 Proof.
-  destruct (wire_prog true w_prog [0; 1; 2; 3]) as [w1|c] eqn:E1; [|vm_compute in E1; discriminate].
-  destruct (wire_prog true w_prog [0; 1; 3; 2]) as [w2|c] eqn:E2; [|vm_compute in E2; discriminate].
+  destruct (wire_prog_old true w_prog [0; 1; 2; 3]) as [w1|c] eqn:E1; [|vm_compute in E1; discriminate].
+  destruct (wire_prog_old true w_prog [0; 1; 3; 2]) as [w2|c] eqn:E2; [|vm_compute in E2; discriminate].
   exists w_prog, [0; 1; 2; 3], [0; 1; 3; 2], w1, w2, 2, 2, 2, 1.
   vm_compute in E1. injection E1 as <-. vm_compute in E2. injection E2 as <-.
   assert (Hc : forall o, nodupb o = true -> forallb (fun l => memb l o) (seq 0 (length w_prog)) = true -> complete_order w_prog o).
@@ -671,4 +678,45 @@ Proof.
   split; [apply Hc; reflexivity|]. split; [apply Hc; reflexivity|].
   split; [intros h l p l' p' H; simpl in H; intuition discriminate|].
   repeat split; try reflexivity. vm_compute. discriminate.
+Qed.
+
+(* ... whereas under the repaired rule the same two statements get two nodes *)
+Lemma passive_pair_distinct_now :
+  match wire_prog true w_prog [0; 1; 2; 3] with
+  | Ok w => (alookup 2 (w_env w), alookup 3 (w_env w))
+  | Err _ => (None, None)
+  end = (Some 2, Some 3).
+Proof. vm_compute. reflexivity. Qed.
+
+(* ------------------------------------------------------------------ full strength, markers included *)
+Lemma norm_from_passive k ins : map in_passive (norm_from k ins) = map in_passive ins.
+Proof. revert k; induction ins as [|i r IH]; intros k; simpl; auto. rewrite IH. reflexivity. Qed.
+
+Lemma resolve_inputs_passive e p ins : forall rins, resolve_inputs e p ins = Some rins ->
+  map in_passive rins = map in_passive ins.
+Proof.
+  induction ins as [|i r IH]; simpl; intros rins H.
+  - injection H as <-. reflexivity.
+  - destruct (resolve e p (in_src i)); [|discriminate]. destruct (resolve_inputs e p r) as [r'|]; [|discriminate].
+    injection H as <-. simpl. rewrite (IH r' eq_refl). reflexivity.
+Qed.
+
+Lemma interns_not_uniq d : interns d = true -> nd_uniq d = false.
+Proof. unfold interns. destruct (nd_uniq d); [rewrite andb_false_r; discriminate | reflexivity]. Qed.
+
+(* two different statements that share a node carry the same passive markers *)
+Lemma run_shared_same_markers sh prog order w l1 l2 i d1 ins1 d2 ins2 :
+  NoDup order -> wire_prog sh prog order = Ok w -> l1 <> l2 ->
+  alookup l1 (w_env w) = Some i -> alookup l2 (w_env w) = Some i ->
+  nth_error prog l1 = Some (StNode d1 ins1) -> nth_error prog l2 = Some (StNode d2 ins2) ->
+  map in_passive ins1 = map in_passive ins2.
+Proof.
+  intros Hnd Hw Hne H1 H2 N1 N2.
+  destruct (run_shared_same_config sh prog order w l1 l2 i Hnd Hw H1 H2)
+    as (d1' & i1' & r1 & d2' & i2' & r2 & A1 & A2 & R1 & R2 & _ & _ & _ & K & X).
+  rewrite N1 in A1. injection A1 as <- <-. rewrite N2 in A2. injection A2 as <- <-.
+  destruct (X Hne) as [I1 I2]. unfold eff_inputs in K.
+  rewrite (interns_not_uniq _ I1), (interns_not_uniq _ I2) in K. unfold key_inputs, norm_inputs in K.
+  apply (f_equal (map in_passive)) in K. rewrite !norm_from_passive in K.
+  rewrite <- (resolve_inputs_passive _ _ _ _ R1), <- (resolve_inputs_passive _ _ _ _ R2). exact K.
 Qed.
